@@ -528,11 +528,15 @@ func (sched *StdScheduler) startExecutionLoop(ctx context.Context) {
 	defer sched.wg.Done()
 	const maxTimerDuration = time.Duration(1<<63 - 1)
 	timer := time.NewTimer(maxTimerDuration)
+	fetchFailed := false
 	for {
 		queueSize, err := sched.queue.Size()
 		switch {
 		case err != nil:
 			sched.logger.Error("Failed to fetch queue size", "error", err)
+			timer.Reset(sched.opts.RetryInterval)
+		case fetchFailed:
+			// do not retry a failing queue faster than the retry interval
 			timer.Reset(sched.opts.RetryInterval)
 		case queueSize == 0:
 			sched.logger.Trace("Queue is empty")
@@ -540,10 +544,11 @@ func (sched *StdScheduler) startExecutionLoop(ctx context.Context) {
 		default:
 			timer.Reset(sched.calculateNextTick())
 		}
+		fetchFailed = false
 		select {
 		case <-timer.C:
 			sched.logger.Trace("Tick")
-			sched.executeAndReschedule(ctx)
+			fetchFailed = !sched.executeAndReschedule(ctx)
 
 		case <-sched.interrupt:
 			sched.logger.Trace("Interrupted waiting for next tick")
@@ -600,9 +605,14 @@ func (sched *StdScheduler) calculateNextTick() time.Duration {
 	return nextTickDuration
 }
 
-func (sched *StdScheduler) executeAndReschedule(ctx context.Context) {
+// executeAndReschedule returns false if no job could be fetched because the
+// queue failed.
+func (sched *StdScheduler) executeAndReschedule(ctx context.Context) bool {
 	// fetch a job for processing
-	scheduled, valid := sched.fetchAndReschedule()
+	scheduled, valid, err := sched.fetchAndReschedule()
+	if err != nil {
+		return false
+	}
 
 	// execute the job
 	if valid {
@@ -615,7 +625,7 @@ func (sched *StdScheduler) executeAndReschedule(ctx context.Context) {
 			select {
 			case sched.dispatch <- scheduled:
 			case <-ctx.Done():
-				return
+				return true
 			}
 		default:
 			sched.wg.Add(1)
@@ -625,6 +635,7 @@ func (sched *StdScheduler) executeAndReschedule(ctx context.Context) {
 			}()
 		}
 	}
+	return true
 }
 
 func (sched *StdScheduler) executeWithRetries(ctx context.Context, jobDetail *JobDetail) {
@@ -686,7 +697,7 @@ func (sched *StdScheduler) validateJob(job ScheduledJob) (bool, func() (int64, e
 	}
 }
 
-func (sched *StdScheduler) fetchAndReschedule() (ScheduledJob, bool) {
+func (sched *StdScheduler) fetchAndReschedule() (ScheduledJob, bool, error) {
 	sched.queueLocker.Lock()
 	defer sched.queueLocker.Unlock()
 
@@ -695,10 +706,10 @@ func (sched *StdScheduler) fetchAndReschedule() (ScheduledJob, bool) {
 	if err != nil {
 		if errors.Is(err, ErrQueueEmpty) {
 			sched.logger.Debug("Queue is empty")
-		} else {
-			sched.logger.Error("Failed to fetch a job from the queue", "error", err)
+			return nil, false, nil
 		}
-		return nil, false
+		sched.logger.Error("Failed to fetch a job from the queue", "error", err)
+		return nil, false, err
 	}
 
 	// validate the job
@@ -709,7 +720,7 @@ func (sched *StdScheduler) fetchAndReschedule() (ScheduledJob, bool) {
 	if err != nil {
 		sched.logger.Info("Job exited the execution loop",
 			"key", job.JobDetail().jobKey.String(), "error", err)
-		return job, valid
+		return job, valid, nil
 	}
 
 	// reschedule the job
@@ -727,7 +738,7 @@ func (sched *StdScheduler) fetchAndReschedule() (ScheduledJob, bool) {
 		sched.Reset()
 	}
 
-	return job, valid
+	return job, valid, nil
 }
 
 // Reset is called internally to recalculate the closest job timing when there
